@@ -21,6 +21,7 @@ def judge(path):
             out["viol"].append((key, what, dict(seq=ev[1], ops=[OPS[h[3]] for h in hist[-10:]], failing_step=ev[2], observed=ev[4:],
                                                 model=[(i["uid"], i["kid"], i["bad"]) for i in items], model_set_error=set_err)))
 
+    last_bad = None
     with open(path, errors="replace") as fh:
         for line in fh:
             if not line.startswith("["):
@@ -31,6 +32,7 @@ def judge(path):
                 continue
             if ev[0] == "N":
                 items, set_err, hist = [], False, []
+                last_bad = None
                 continue
             if ev[0] == "STATS":
                 out["n"] += ev[1]
@@ -43,6 +45,8 @@ def judge(path):
             if op <= 4 or op == 14:
                 for part in loaded.split(","):
                     f = part.split(":")
+                    if f[0] == "x":
+                        last_bad = int(f[1])
                     if f[0] == "bulk":
                         items.extend(dict(uid=u, kid=None, bad=0) for u in range(int(f[1]), int(f[1]) + int(f[2])))
                     elif f[0] == "g":
@@ -89,6 +93,11 @@ def judge(path):
             want = [first("a"), first("b"), first("c"), -1, -1]
             if finds[:5] != want:
                 viol("find_bykid:%s" % OPS[op], "jwks_find_bykid results %r, model %r" % (finds[:5], want), ev)
+            # the kid of the most recently loaded flagged item: a flagged item is still an item of the list (even ids: kid certainly parsed)
+            if last_bad is not None and last_bad % 2 == 0:
+                want6 = last_bad if any(i["uid"] == last_bad for i in items) else -1
+                if finds[5] != want6:
+                    viol("find_bykid-flagged-item:%s" % OPS[op], "jwks_find_bykid(\"bad-%d\") gave %r, model %r" % (last_bad, finds[5], want6), ev)
             if len(out["samples"]) < 2 and step == 3:
                 out["samples"].append(dict(ops=[OPS[h[3]] for h in hist], final_items=its, error_any=err_any))
     return out
